@@ -32,6 +32,7 @@ RELEVANT = {
     "units": ["C06", "C09", "C14", "C19"],
     "DEFAULT_POOL_NB_TRIES": ["C07", "C08", "C03"], "DEFAULT_POOL_WAIT_SEC": ["C07", "C08"],
     "DEFAULT_HTTP_FAIL_NB_RETRY": ["C07", "C08", "C03", "C18"], "DEFAULT_HTTP_FAIL_WAIT_SEC": ["C07", "C08"],
+    "DEFAULT_HTTP_MAX_REDIRECT": ["C09", "C04", "C08"],
     "DEFAULT_CERT_FILE_MODE": ["C13", "C02"], "DEFAULT_PK_FILE_MODE": ["C13", "C02"],
     "DEFAULT_ACCOUNT_FILE_MODE": ["C13", "C11"],
     "DEFAULT_CERT_RANDOM_EARLY_RENEW": ["C06", "C14"], "DEFAULT_CERT_RENEW_DELAY": ["C06", "C14"],
@@ -41,7 +42,7 @@ RELEVANT = {
     "DEFAULT_CERT_KEY_TYPE": ["C01"], "DEFAULT_ACCOUNT_KEY_TYPE": ["C11", "C04"],
     "DEFAULT_EXTERNAL_ACCOUNT_JWA": ["C04", "C11"],
     "man_vars": ["C10"], "default_hooks": ["C20"], "profile": ["C17"], "global_merge": ["C13", "C14"],
-    "trust": ["C18"], "senders": ["C09", "C12"],
+    "trust": ["C18"], "senders": ["C09", "C12", "C04", "C08"],
 }
 
 
@@ -179,7 +180,7 @@ def gen_consts():
     c = rust_consts(main)
     path = os.path.join(vlib.LEAN, "AcmedVerif", "Gen", "Consts.lean")
     want_int = ["DEFAULT_POOL_NB_TRIES", "DEFAULT_POOL_WAIT_SEC", "DEFAULT_HTTP_FAIL_NB_RETRY",
-                "DEFAULT_HTTP_FAIL_WAIT_SEC", "DEFAULT_CERT_FILE_MODE", "DEFAULT_PK_FILE_MODE",
+                "DEFAULT_HTTP_FAIL_WAIT_SEC", "DEFAULT_HTTP_MAX_REDIRECT", "DEFAULT_CERT_FILE_MODE", "DEFAULT_PK_FILE_MODE",
                 "DEFAULT_ACCOUNT_FILE_MODE", "DEFAULT_CERT_RANDOM_EARLY_RENEW",
                 "DEFAULT_CERT_RENEW_DELAY", "MAX_RATE_LIMIT_SLEEP_MILISEC",
                 "MIN_RATE_LIMIT_SLEEP_MILISEC", "DEFAULT_POOL_TIME", "DEFAULT_RENEW_FAIL_WAIT_SEC"]
@@ -611,13 +612,15 @@ def gen_senders():
                 send_in.append(rows[-1][0])
     if len(rows) < 5 or not send_in:
         raise GenError("HTTP layer not recognised (%d async functions, %d senders)" % (len(rows), len(send_in)))
+    import gen_redirect        # all of acmed/src: send sites and their limiter calls, client construction, redirect policy
+    extra = gen_redirect.extra_defs()
     text = ("/- GENERATED by /verif/py/gen.py from /repo/acmed/src/http.rs and acme_proto/http.rs on every run.\n"
             "   Do not edit. -/\nnamespace AcmedVerif.Gen\n\n"
             "/-- (async function of the HTTP layers, its parameters include `&mut Endpoint`) -/\n"
             "def asyncHttpFns : List (String × Bool) := [\n  %s]\n\n"
             "/-- the functions whose body calls `.send()` -/\n"
-            "def sendingFns : List String := %s\n\nend AcmedVerif.Gen\n"
-            % (",\n  ".join('(%s, %s)' % (json.dumps(n), "true" if b else "false") for n, b in rows), _lstr(send_in)))
+            "def sendingFns : List String := %s\n\n%send AcmedVerif.Gen\n"
+            % (",\n  ".join('(%s, %s)' % (json.dumps(n), "true" if b else "false") for n, b in rows), _lstr(send_in), extra))
     vlib.write_if_changed(os.path.join(vlib.LEAN, "AcmedVerif", "Gen", "Senders.lean"), text)
     return rows, send_in
 
